@@ -310,6 +310,12 @@ func checkDecoderTable(c *Ctx, col string, dec *ssa.Function) {
 	}
 	tb, err := extractTable(dec)
 	if err != nil {
+		// a decoder written as a search in a constant table is the same table
+		if lt, ok := c.lookupLoopTable(dec); ok {
+			tb, err = lt, nil
+		}
+	}
+	if err != nil {
 		c.Undecided("A2", fname, "decoder for "+col, p.pos(dec.Pos()), "decoder is not a decision table: "+err.Error())
 		return
 	}
@@ -530,10 +536,19 @@ func polyOf(v ssa.Value, d int) (map[string]int64, string) {
 			}
 		}
 	}
-	if call, ok := v.(*ssa.Call); ok && !call.Call.IsInvoke() && len(polyEnv) < 3 {
+	resIdx := 0
+	callV := v
+	if ex, isEx := v.(*ssa.Extract); isEx {
+		if c2, isCall := ex.Tuple.(*ssa.Call); isCall {
+			if cal := c2.Call.StaticCallee(); cal != nil && strings.HasPrefix(fnPkgPath(cal), modPath) && !isProtoPkg(fnPkgPath(cal)) {
+				callV, resIdx = c2, ex.Index // one of several results of a module helper
+			}
+		}
+	}
+	if call, ok := callV.(*ssa.Call); ok && !call.Call.IsInvoke() && len(polyEnv) < 3 {
 		// a module helper that only does the arithmetic (single return of an expression over its parameters)
 		if cal := call.Call.StaticCallee(); cal != nil && len(cal.Blocks) == 1 && strings.HasPrefix(fnPkgPath(cal), modPath) && len(cal.Params) == len(call.Call.Args) {
-			if ret, isRet := cal.Blocks[0].Instrs[len(cal.Blocks[0].Instrs)-1].(*ssa.Return); isRet && len(ret.Results) == 1 {
+			if ret, isRet := cal.Blocks[0].Instrs[len(cal.Blocks[0].Instrs)-1].(*ssa.Return); isRet && resIdx < len(ret.Results) && (len(ret.Results) == 1 || callV != v) {
 				env := map[*ssa.Parameter]map[string]int64{}
 				okArgs := true
 				for i, a := range call.Call.Args {
@@ -546,7 +561,17 @@ func polyOf(v ssa.Value, d int) (map[string]int64, string) {
 				}
 				if okArgs {
 					polyEnv = append(polyEnv, env)
-					res, e := polyOf(ret.Results[0], d+1)
+					savedSubst := descrSubst
+					ns := map[ssa.Value]string{}
+					for k, v := range savedSubst {
+						ns[k] = v
+					}
+					for i, a := range call.Call.Args {
+						ns[cal.Params[i]] = descr(a)
+					}
+					descrSubst = ns
+					res, e := polyOf(ret.Results[resIdx], d+1)
+					descrSubst = savedSubst
 					polyEnv = polyEnv[:len(polyEnv)-1]
 					if e == "" {
 						return res, ""
